@@ -54,11 +54,22 @@ def rleaf(rng, allow_flag=False):
             "sensitive": sensitive}
 
 
+REJECTS = {"int": [0, 13, 15], "str": ["", "nope", "abc"], "bool": [False], "flag": [], "any": []}
+
+
 def rfields(rng, depth, vt, allow_flag=False):
     fields = []
     keys = rng.sample(KEYS, rng.randint(1, 4))
     for k in keys:
-        fields.append((k, rleaf(rng, allow_flag and k == "flag")))
+        nd = rleaf(rng, allow_flag and k == "flag")
+        pool = REJECTS[nd["kind"][0]]
+        # a field-level validator must not refuse the declared default (the premise of C01) ...
+        pool = [r for r in pool if not (type(r) is type(nd["default"]) and r == nd["default"])]
+        if pool and not nd["callable"] and rng.random() < 0.25:
+            nd["reject"] = rng.choice(pool)
+        if rng.random() < 0.2:
+            nd["name"] = "Friendly %s" % k
+        fields.append((k, nd))
     if depth > 0:
         for k in rng.sample(SUBKEYS, rng.choice([0, 1, 1, 2])):
             sub_fields = rfields(rng, depth - 1, vt, allow_flag=True)
@@ -196,8 +207,11 @@ def rop(rng, case_fields, root_dyn, emphasis):
         return (ps, ("set", k, rvalue(rng, nd), "attr"))
     kk, n2 = rng.choice(lists)
     item = rtree(rng, n2["fields"], 1, False) if rng.random() < 0.85 else rng.choice([5, "s", None, [1]])
-    if rng.random() < 0.6:
+    r2 = rng.random()
+    if r2 < 0.45:
         return (ps, ("append", kk, item))
+    if r2 < 0.7:
+        return (ps, ("insert", kk, rng.choice([0, 1, -1, -2, 5, -7, 2]), item))
     return (ps, ("setidx", kk, rng.choice([0, 0, 1, 2, 5]), item))
 
 
@@ -272,11 +286,17 @@ def matrix_cases():
                      "sensitive": True}),
               ("sub", {"t": "sub", "dyn": False, "vals": [], "fields": sub}),
               ("items", {"t": "cfglist", "required": False, "vals": [], "fields": item}),
-              ("c", {"t": "leaf", "kind": ("any",), "required": False, "default": None, "callable": False, "sensitive": False})]
+              ("c", {"t": "leaf", "kind": ("any",), "required": False, "default": None, "callable": False, "sensitive": False}),
+              ("z", {"t": "leaf", "kind": ("int", None, None), "required": False, "default": 5, "callable": False, "sensitive": False,
+                     "reject": 0, "name": "Pool size"}),
+              ("e", {"t": "leaf", "kind": ("str", None, None, False, False), "required": False, "default": "dflt", "callable": False,
+                     "sensitive": False, "reject": ""})]
     vt = [(0, "t", "bad!")]
     ops = [
         ((), ("set", "n", 5, "attr")), ((), ("set", "n", "77", "dotted")), ((), ("set", "n", 0, "attr")), ((), ("set", "n", 101, "attr")),
         ((), ("set", "n", True, "attr")), ((), ("set", "n", None, "attr")), ((), ("set", "n", 7.9, "attr")),
+        ((), ("set", "z", 0, "attr")), ((), ("set", "z", "0", "dotted")), ((), ("set", "z", 3, "attr")), ((), ("set", "z", None, "attr")),
+        ((), ("set", "e", "", "attr")), ((), ("set", "e", "x", "attr")), ((), ("load", {"z": 0}, True)), ((), ("load", {"e": "", "z": 1}, True)),
         ((), ("set", "n", float("inf"), "dotted")), ((), ("set", "n", float("nan"), "attr")), ((), ("set", "n", -0.5, "attr")),
         ((), ("set", "sub", {"a": float("inf")}, "attr")), ((), ("set", "items", [{"n": 1}, {"n": float("-inf")}], "attr")),
         ((), ("load", {"n": float("inf")}, True)), ((), ("set", "s", " HeLLo ", "attr")),
@@ -294,6 +314,8 @@ def matrix_cases():
         ((), ("set", "items", "str", "attr")), ((), ("set", "items", None, "attr")), ((), ("set", "items", [], "attr")),
         ((), ("set", "items", ({"n": 3},), "attr")),
         ((), ("append", "items", {"n": 4})), ((), ("append", "items", {"n": 44})), ((), ("append", "items", 7)),
+        ((), ("insert", "items", 0, {"n": 5})), ((), ("insert", "items", -1, {"n": 5})), ((), ("insert", "items", -1, {"n": 55})),
+        ((), ("insert", "items", 9, {"n": 55})), ((), ("insert", "items", -9, {"n": 3})), ((), ("insert", "items", 1, 7)),
         ((), ("setidx", "items", 0, {"n": 6})), ((), ("setidx", "items", 0, {"n": -1})), ((), ("setidx", "items", 7, {"n": 6})),
         ((("item", "items", 0),), ("set", "n", 8, "attr")), ((("item", "items", 1),), ("set", "n", "bad", "attr")),
         ((("item", "items", 0),), ("set", "s", "TOOLONG", "attr")),
@@ -323,6 +345,13 @@ def matrix_cases():
         ((), ("load", {"rows": [{"n": 2}], "typed": {"need": 1}}, True)), ((), ("append", "rows", {"n": 3})), ((), ("reset", "rows")),
     ]
     cases = []
+    # the list operations again on a configuration whose list already holds two items (constructor keyword)
+    for o in ops:
+        touches_list = (o[1][0] in ("append", "insert", "setidx") or (o[1][0] in ("set", "reset") and o[1][1] == "items")
+                        or any(p[0] == "item" for p in o[0]))
+        if touches_list:
+            cases.append(dict(base, kw={"items": [{"n": 1}, {"n": 2, "s": "two"}]}, ops=[o], kind="matrix1c"))
+            cases.append(dict(base, kw={"items": [{"n": 1}, {"n": 2, "s": "two"}]}, ops=[o, ((), ("validate", True))], kind="matrix1c"))
     for o in ops_b:
         cases.append(dict(base_b, kw={}, ops=[o], kind="matrix1b"))
     for o1, o2 in itertools.product(ops_b, repeat=2):
@@ -391,8 +420,9 @@ def g_leaf(nd):
         kind = "(LStr %s %s %s %s)" % (g_optnat(k[1]), g_optnat(k[2]), g_bool(k[3]), g_bool(k[4]))
     else:
         kind = {"bool": "LBool", "flag": "LFlag", "any": "LAny"}[k[0]]
-    return "(NLeaf {| l_kind := %s; l_required := %s; l_default := %s; l_callable := %s; l_sensitive := %s |})" % (
-        kind, g_bool(nd["required"]), gal(nd["default"]), g_bool(nd["callable"]), g_bool(nd["sensitive"]))
+    return "(NLeaf {| l_kind := %s; l_required := %s; l_default := %s; l_callable := %s; l_sensitive := %s; l_reject := %s |})" % (
+        kind, g_bool(nd["required"]), gal(nd["default"]), g_bool(nd["callable"]), g_bool(nd["sensitive"]),
+        "None" if nd.get("reject") is None else "(Some %s)" % gal(nd["reject"]))
 
 
 def g_node(nd):
@@ -428,6 +458,8 @@ def g_op(o):
         return "(CSetIdx %s %d%%nat %s)" % (g_str(o[1]), o[2], gal(o[3]))
     if o[0] == "validate":
         return "(CValidate %s)" % g_bool(o[1])
+    if o[0] == "insert":
+        return "(CInsert %s %s %s)" % (g_str(o[1]), g_z(o[2]) if o[2] >= 0 else "(%d)" % o[2], gal(o[3]))
     if o[0] == "loads":
         parsed = parse_direct(o[1], make_document(o[1], o[2], o[3]), o[2])
         if parsed[0] == "ok":
@@ -548,6 +580,16 @@ class Built:
             elif isinstance(d, (list, dict)):
                 d = copy.deepcopy(d)
             kw = dict(required=nd["required"], default=d, sensitive=nd["sensitive"])
+            if nd.get("name"):
+                kw["name"] = nd["name"]
+            if nd.get("reject") is not None:
+                refused = nd["reject"]
+
+                def field_validator(cfg, value, refused=refused):
+                    if type(value) is type(refused) and value == refused:
+                        raise ValueError("the field's validator refuses this value")
+                    return value
+                kw["validator"] = field_validator
             if k[0] == "int":
                 return IntField(min=k[1], max=k[2], **kw)
             if k[0] == "str":
@@ -690,11 +732,17 @@ def apply_op(root, ps, o):
                 return "nav"
             if o[0] == "append":
                 val.append(copy.deepcopy(o[2]))
+            elif o[0] == "insert":
+                val.insert(o[2], copy.deepcopy(o[3]))
             else:
                 val[o[2]] = copy.deepcopy(o[3])
     except Exception as e:  # noqa
+        LAST_TEXT[0] = str(e)
         return ("err", errkind(e))
     return "ok"
+
+
+LAST_TEXT = [None]
 
 
 def impl(c):
@@ -716,6 +764,7 @@ def impl(c):
     prev = first
     for ps, o in c["ops"]:
         b.validator_log.clear()
+        LAST_TEXT[0] = None
         target = navigate(root, ps)
         tpath = None
         if target is not None:
@@ -739,8 +788,20 @@ def impl(c):
             except Exception as e:  # noqa
                 raised = errkind(e)
             both = (collected, raised)
+        defined_api = None
+        if c.get("prop") == "C12":
+            from cincoconfig import is_value_defined
+            defined_api = {}
+            for pth, obj in after:
+                if "[" in pth:
+                    continue
+                for key in obj._data:
+                    try:
+                        defined_api[pjoin(pth, key)] = (is_value_defined(root, pjoin(pth, key)), key not in obj._default_value_keys)
+                    except Exception as e:  # noqa
+                        defined_api[pjoin(pth, key)] = (type(e).__name__, key not in obj._default_value_keys)
         trace.append({"ps": ps, "op": o, "out": out, "before": prev, "after": snap, "same": same, "tpath": tpath,
-                      "vlog": list(b.validator_log), "both": both})
+                      "vlog": list(b.validator_log), "both": both, "defined_api": defined_api, "text": LAST_TEXT[0]})
         steps.append((out if not (isinstance(out, tuple) and out[0] == "err") else ("err", out[1]), snap, same))
         before_ids = ids
         prev = snap
@@ -763,6 +824,8 @@ def leaf_ok(nd, v):
     """independent re-statement of the declared constraints of a leaf"""
     if v is None:
         return True
+    if nd.get("reject") is not None and type(v) is type(nd["reject"]) and v == nd["reject"]:
+        return False
     k = nd["kind"]
     if k[0] == "int":
         return type(v) is int and (k[1] is None or v >= k[1]) and (k[2] is None or v <= k[2])
@@ -895,7 +958,7 @@ def oracle_for(prop, c, obs):
             if is_err and o[0] == "loads" and parse_direct(o[1], make_document(o[1], o[2], o[3]), o[2])[0] == "err":
                 if canon_snap(before) != canon_snap(after) or not all(st["same"].values()):
                     bad.append("a %s document that does not parse (%s) changed the configuration" % (o[1], o[3]))
-            if is_err and o[0] in ("set", "append", "setidx"):
+            if is_err and o[0] in ("set", "append", "setidx", "insert"):
                 if canon_snap(before) != canon_snap(after):
                     bad.append("rejected %s %r changed the configuration" % (o[0], o[1:3]))
                 if not all(st["same"].values()):
@@ -913,6 +976,11 @@ def oracle_for(prop, c, obs):
                     exp = norm_leaf(c, tsteps, o[1], o[2])
                     if exp is not NotImplemented and (got != exp or type(got) is not type(exp)):
                         bad.append("reading %s after assigning %r gives %r, normal form is %r" % (o[1], o[2], got, exp))
+        if prop == "C12" and st.get("defined_api"):
+            for pth, (api, mark) in st["defined_api"].items():
+                if api != mark:
+                    bad.append("is_value_defined(config, %r) answers %r, the field %s user-defined" % (pth, api, "is" if mark else "is not"))
+                    break
         if prop == "C12":
             if o[0] == "set":
                 tb = get_cfg_snap(before, tsteps)
@@ -960,6 +1028,9 @@ def oracle_for(prop, c, obs):
                     bad.append("%s of %r rejected with %r instead of a ValidationError" % (o[0], o[1:3], kind))
             else:
                 p = kind[1]
+                text = st.get("text") or ""
+                if p and not (text.startswith(p + ":") or text.startswith(p + " (")):
+                    bad.append("the error text %r does not start with the reference path %r" % (text[:80], p))
                 if o[0] == "load":
                     # the load validates the whole (sub)configuration afterwards: any field of it may be named
                     if tpath and not (p == tpath or p.startswith(tpath + ".") or p.startswith(tpath + "[")):
@@ -1048,6 +1119,8 @@ def norm_leaf(c, tsteps, key, x):
     k = nd["kind"]
     if x is None:
         return None
+    if nd.get("reject") is not None:
+        return NotImplemented
     if k[0] == "int":
         if isinstance(x, bool):
             return NotImplemented
